@@ -458,4 +458,49 @@ def r12_5(run):
     run.floor(4)
 
 
-RULES = [("R12.1", r12_1), ("R12.2", r12_2), ("R12.3", r12_3), ("R12.4", r12_4), ("R12.5", r12_5)]
+def r12_6(run):
+    """the fluid is part of the user's network description and is read by every calculation: its query methods (get_*, the
+    property getters of the FluidProperty classes) are pure -- they neither store into `self` (attributes, all_properties) nor
+    call a method that does (add_property).  A value cached on the fluid during a run changes the network description and makes
+    later runs depend on earlier ones."""
+    from ..arrnf import ANF, base_of, walk
+    ix = run.index
+    FL = "pandapipes.properties.fluids"
+    mi = ix.module(FL)
+    n = 0
+    MUT = {"add_property", "update", "pop", "clear", "setdefault", "append", "extend", "__setitem__", "popitem", "insert", "remove"}
+    for ci in mi.classes.values():
+        if not (ci.name == "Fluid" or ci.name.startswith("FluidProperty")):
+            continue
+        for mname, m in ci.methods.items():
+            if not (mname.startswith("get_") or mname in ("is_gas", "is_liquid")):
+                continue
+            ps = m.params()
+            if not ps or ps[0] != "self":
+                continue
+            try:
+                r = ANF(ix, m).run()
+            except AnalysisError:
+                continue
+            n += 1
+            run.analysed(m)
+
+            def rooted_at_self(t):
+                t = base_of(t)
+                while isinstance(t, tuple) and t and t[0] in ("attr", "idx", "upd"):
+                    t = t[1]
+                return t == ("n", "self")
+            bad = []
+            for e in r.events:
+                if e.kind == "store" and rooted_at_self(e.base):
+                    bad.append("store into %s" % e.index[0][1] if e.index and e.index[0][0] == "c" else "store into self")
+                elif e.kind == "call" and e.fn[0] == "attr" and e.fn[2] in MUT and rooted_at_self(e.fn[1]):
+                    bad.append("call of %s on the fluid" % e.fn[2])
+            run.ob("%s.%s|pure" % (ci.name, mname), not bad,
+                   "query method %s.%s does not modify the fluid object" % (ci.name, mname), run.where(m, m.node),
+                   detail="; ".join(sorted(set(bad))) if bad else None)
+    run.stat("fluid_query_methods_checked", n)
+    run.floor(15)
+
+
+RULES = [("R12.1", r12_1), ("R12.2", r12_2), ("R12.3", r12_3), ("R12.4", r12_4), ("R12.5", r12_5), ("R12.6", r12_6)]
